@@ -94,7 +94,8 @@ def load_registry():
             kv.setdefault("desc", "")
             kv.setdefault("bounds", "")
             kv["module"] = mod
-            kv["full_name"] = f"{mod}::{name}"
+            # `fn=` lets a registry entry re-run an existing harness function under other CBMC options
+            kv["full_name"] = f"{mod}::{kv.get('fn', name)}"
             kv["prop"] = kv.get("prop", name.split("_")[0].upper())
             reg[name] = kv
     return reg
@@ -138,9 +139,14 @@ def cbmc_args(h):
     update chains, which made a concrete-tag check on a 65-byte key run out of memory (2.5 M steps)
     instead of finishing in 3 s.  Must be the last flags on the command line."""
     fs = h.get("fs", os.environ.get("VERIF_FS", ""))
-    if not fs:
-        return []  # CBMC default (64); measured: 256 everywhere makes the interning harnesses >3x slower
-    return ["--cbmc-args", "--max-field-sensitivity-array-size", str(fs)]
+    extra = h.get("cbmc", "").split()
+    args = []
+    if fs:  # CBMC default is 64; measured: 256 everywhere makes the interning harnesses >3x slower
+        args += ["--max-field-sensitivity-array-size", str(fs)]
+    # cbmc=--nondet-static: every mutable static (of hpke, its dependencies and the models) starts with an
+    # ARBITRARY value = "any earlier history of hidden global state"
+    args += extra
+    return (["--cbmc-args"] + args) if args else []
 
 
 def run_harness(h, extra=None, tag=""):
@@ -490,6 +496,11 @@ def main():
 
     cond = threading.Condition()
     free = [args.jobs]
+    # registry entries that re-run the same harness function (fn=) share Kani's per-harness
+    # intermediate files: never run two of them at the same time
+    fn_locks = {}
+    for h in order:
+        fn_locks.setdefault(h["full_name"], threading.Lock())
 
     def guarded(h):
         need = min(int(h.get("slots", "1")), args.jobs)
@@ -498,7 +509,8 @@ def main():
                 cond.wait()
             free[0] -= need
         try:
-            return run_harness(h)
+            with fn_locks[h["full_name"]]:
+                return run_harness(h)
         finally:
             with cond:
                 free[0] += need
